@@ -4,7 +4,7 @@
    structural well-formedness wf_iter; deleted entities never appear in an answer.
    Statements only; proofs are `exact <lemma>`; lemmas in Iter/BuildersProofs.v. *)
 From Coq Require Import ZArith List.
-From OVM Require Import Kernel.State Kernel.Ops Iter.Builders Iter.CursorProofs Iter.BuildersProofs.
+From OVM Require Import Kernel.State Kernel.Ops Kernel.InvB Kernel.SwapInvol Kernel.Sizes Iter.Builders Iter.CursorProofs Iter.BuildersProofs Iter.Bridge.
 Import ListNotations.
 Local Open Scope nat_scope.
 
@@ -172,6 +172,21 @@ Theorem C01q_boundary_unguarded_invalid : forall (k : kind) (s : mesh), k <> KM 
   exists it0, bnd_begin k s = Some (mkB it0 false (-1)%Z).
 Proof. exact boundary_iter_unguarded_invalid. Qed.
 Print Assumptions C01q_boundary_unguarded_invalid.
+
+(* ---- bridge to the kernel component: the hypotheses of every theorem above hold in every state on which the extracted
+   decidable invariants of Kernel/InvB.v return true (they are evaluated by the model driver on every state the C01
+   correspondence run visits); `sized` is proved for every reachable state (Kernel/Sizes.v) *)
+Theorem C01q_hypotheses_from_checkers : forall s,
+  vbu_ok_b s = true /\ ebu_ok_b s = true /\ fbu_ok_b s = true /\ valid_b s = true -> sized s ->
+  bu_exact s /\ wf_iter s /\ flags_sized s.
+Proof. exact query_hypotheses_of_checkers. Qed.
+Print Assumptions C01q_hypotheses_from_checkers.
+
+Theorem C01q_hypotheses_reachable : forall ops,
+  vbu_ok_b (run ops) = true /\ ebu_ok_b (run ops) = true /\ fbu_ok_b (run ops) = true /\ valid_b (run ops) = true ->
+  bu_exact (run ops) /\ wf_iter (run ops) /\ flags_sized (run ops).
+Proof. intros ops H. exact (query_hypotheses_of_checkers (run ops) H (sized_reachable ops)). Qed.
+Print Assumptions C01q_hypotheses_reachable.
 
 Example C01q_hypotheses_satisfiable :
   (bu_exact ex_two_tets /\ wf_iter ex_two_tets /\ full_bu ex_two_tets = true) /\
